@@ -10,6 +10,7 @@
 #include <unistd.h>
 #include <time.h>
 #include <stdarg.h>
+#include <sys/time.h>
 
 static char h_case[2048];		// description of the element being executed (for crash reports)
 static long h_fail_printed;
@@ -37,7 +38,15 @@ static void h_init(void) {
 }
 static void h_done(void) { if (h_incomplete) printf("INCOMPLETE budget exhausted\n"); printf("DONE\n"); fflush(stdout); }
 
-#define H_CASE(...) snprintf(h_case, sizeof h_case, __VA_ARGS__)
+// Progress watchdog (opt-in): counts CPU time of the process (ITIMER_VIRTUAL, so a loaded machine cannot trip it). If no element has
+// been started (H_CASE / H_TICK) for period*limit CPU seconds, the element being executed is reported as not returning.
+static volatile unsigned long h_ticks; static unsigned long h_wd_last; static int h_wd_stall, h_wd_limit, h_wd_period;
+static void h_wd_alarm(int sig) { (void)sig; if (h_ticks != h_wd_last) { h_wd_last = h_ticks; h_wd_stall = 0; return; } if (++h_wd_stall < h_wd_limit) return;
+	char x[1500] = ""; if (h_crash_extra) h_crash_extra(x, sizeof x);
+	char b[4000]; int n = snprintf(b, sizeof b, "\nWATCHDOG no return after %d s of CPU time in one element\nCRASHCASE %s %s (watchdog)\n", h_wd_stall * h_wd_period, h_case, x); if (write(2, b, n)) {} _exit(9); }
+static void h_watchdog(int period_s, int limit) { h_wd_period = period_s; h_wd_limit = limit; signal(SIGVTALRM, h_wd_alarm); struct itimerval it = { { period_s, 0 }, { period_s, 0 } }; setitimer(ITIMER_VIRTUAL, &it, NULL); }
+#define H_TICK() ((void)h_ticks++)
+#define H_CASE(...) (h_ticks++, snprintf(h_case, sizeof h_case, __VA_ARGS__))
 // FAIL key=<key> text   (at most 200 printed per process; all are counted)
 static long h_fails;
 static void h_fail(const char *key, const char *fmt, ...) {
